@@ -228,6 +228,7 @@ Theorem tensor_train_error_identity X rank cores :
 Proof.
   unfold tt_orth, tensor_train, tt_discard, tt_err2.
   destruct (validate_tt_rank (ndim X) rank) as [rk|]; [|discriminate]. cbn [rbind]. intros Hok Hrun.
+  destruct (ndim X <=? 1); [discriminate|].
   rewrite <- (chain_loop_error_identity _ _ _ _ _ _ _ Hok Hrun). unfold err2.
   transitivity (sidx (shape X) (fun idx => fsum 1 (fun c =>
      sqf (nth ((0 * prod (shape X) + ravel (shape X) idx) * 1 + c) (data X) fz -f chain Op cores 0 idx c)))).
